@@ -14,6 +14,8 @@ Reset(a, b) == St("reset", a, b, "")
 PollDrop(a) == St("polldrop", a, 0, "")
 Twin(a) == St("twin", a, 0, "")
 IvlNew(p, mode) == St("ivlnew", p, 0, mode)
+IvlAt(start, p, mode) == St("ivlnew", p, start, mode)
+IvlReset == St("ivlreset", 0, 0, "")
 Tick == St("tick", 0, 0, "")
 Send(ch) == St("send", ch, 0, "")
 Recv(ch) == St("recv", ch, 0, "")
@@ -34,6 +36,10 @@ ProgsTimers1 == {[t \in Tasks |-> p \o <<Sleep(2)>>] : p \in Seqs(TimerSteps, 3)
 (* intervals and missed ticks *)
 IvlSteps == {Tick, Sleep(1), Sleep(3), Sleep(5)}
 ProgsIvl == {[t \in Tasks |-> <<IvlNew(2, mode)>> \o p \o <<Tick, Tick>>] : mode \in {"burst", "delay", "skip"}, p \in Seqs(IvlSteps, 3)}
+
+(* interval_at with a start in the future, Interval::reset after ticks that were taken on time, late, or not at all *)
+IvlSteps2 == {Tick, Sleep(1), Sleep(3), IvlReset}
+ProgsIvlAt == {[t \in Tasks |-> <<IvlAt(start, 2, mode)>> \o p \o <<Tick, Tick>>] : start \in {0, 1, 3}, mode \in {"burst", "delay", "skip"}, p \in Seqs(IvlSteps2, 3)}
 
 (* the same on a millisecond grid (period 10 ms): ticks picked up a little late (<= 5 ms: not "missed") and a lot late *)
 IvlStepsMs == {Tick, Sleep(3), Sleep(12), Sleep(14), Sleep(17), Sleep(30)}
